@@ -131,7 +131,72 @@ def rule_scope(prog, rep):
     rule_memo(prog, rep)
 
 
+def rule_shape(prog, rep):
+    """C17.SHAPE: SameResponseShape steps 3-4 in same_output_type_shape, as a table over the kinds
+    of the two field types (Named, NonNullNamed, List, NonNullList) for one round of unwrapping:
+    two lists of the same nullability are unwrapped together (the round returns nothing); a list
+    against a non-list, or a nullable list against a non-null list, is a conflict; at the bottom a
+    nullable name against a non-null name is a conflict.  Looked up among the CFG paths of one loop
+    iteration, so `match (a, b)` and `is_list()/item_type()` loops are read the same way."""
+    rep.floor("C17.SHAPE", 1)
+    import itertools
+    from ..flow import _strip
+    from ..tables import enum_paths, return_value_on_path
+    from ..core import Undecided
+    f = prog.fn(r"^apollo_compiler::validation::selection::same_output_type_shape$")
+    preds = f.preds()
+    live = f.live_blocks()
+    heads = sorted(set(h for h in live for p in preds[h] if p in live and f.dominates(h, p)))
+    if len(heads) != 1:
+        raise Undecided("same_output_type_shape: expected one loop that unwraps the two types (found %d)" % len(heads))
+    H = heads[0]
+    KINDS = ("Named", "NonNullNamed", "List", "NonNullList")
+    GROUPS = {"is_named": {"Named", "NonNullNamed"}, "is_list": {"List", "NonNullList"}, "is_non_null": {"NonNullNamed", "NonNullList"}}
+    rows = []
+    for atoms, end, path in enum_paths(f, start=H, stops={H}, inner_loops="cut", max_paths=20000):
+        preds_ = []
+        stale = set()
+        for a in _strip(atoms):
+            who = None
+            if a[0] in ("variant", "variant_in") and a[1] in ("var:type_a", "var:type_b"):
+                names = (a[2],) if a[0] == "variant" else tuple(a[2])
+                if all(n in KINDS for n in names):
+                    preds_.append((a[1][-1], lambda v, ns=names: v in ns))
+            elif a[0] == "callbool" and a[2] and a[2][0] in ("var:type_a", "var:type_b") and a[1].split("::")[-1] in GROUPS:
+                g = GROUPS[a[1].split("::")[-1]]
+                preds_.append((a[2][0][-1], lambda v, g=g, val=a[3]: (v in g) == val))
+        leaf = "Err" if (return_value_on_path(f, path) or "").startswith("Result::Err{") else "other"
+        rows.append((preds_, leaf))
+    bad = []
+    for ka, kb in itertools.product(KINDS, KINDS):
+        env = {"a": ka, "b": kb}
+        got = set(leaf for ps, leaf in rows if all(p(env[w]) for w, p in ps))
+        la, lb = ka in GROUPS["is_list"], kb in GROUPS["is_list"]
+        if la and lb and ka == kb:
+            want = "descend"
+            ok = not got
+        elif la or lb:
+            want = "conflict"
+            ok = got == {"Err"}
+        elif ka != kb:
+            want = "conflict"
+            ok = got == {"Err"}
+        else:
+            want = "compare the named types"
+            ok = "other" in got
+        rep.obligation(ok)
+        if not ok:
+            bad.append((ka, kb, sorted(got) or ["keeps unwrapping"], want))
+    if not bad:
+        rep.instance("C17.SHAPE", "same_output_type_shape: 16 kind pairs - same-nullability lists unwrap together, list vs non-list and nullable vs non-null (at any level) conflict")
+    else:
+        ka, kb, got, want = bad[0]
+        rep.finding("C17.SHAPE", f.name, "wrappers",
+                    "SameResponseShape: for field types of kind %s and %s the code %s, the rule is: %s (%d of 16 kind pairs differ) - e.g. `[Int]!` and `[Int]` under the same response name must conflict" % (ka, kb, "/".join(got), want, len(bad)), f.loc())
+
+
 def run(prog, rep):
     rule_registry(prog, rep)
     rule_scope(prog, rep)
+    rule_shape(prog, rep)
     rep.note("the registry proves presence of a handler per spec rule, not that the handler's condition is the spec's; verdict agreement with graphql-js is not decided")
